@@ -20,7 +20,9 @@ static int mode_residual(int cases, int max_nr, int max_nt)
     Rng rng(seed_from_env());
     for (int c = 0; c < cases; c++) {
         Problem p = make_problem(rng, pick_nr(rng, max_nr), pick_nt(rng, max_nt));
-        // the same problem under the four cache-flag pairs; take needs both caches
+        // the same problem AND the same fields (per level) under the four cache-flag pairs, so that the driver can compare every
+        // evaluation of one level with every other one (give vs take, cached vs uncached, sampled coarse caches); take needs both caches
+        std::vector<std::vector<double>> xs, fs;
         for (int flags = 0; flags < 4; flags++) {
             bool cc = flags & 1, cg = flags & 2;
             std::optional<double> split = rng.coin(0.3) ? std::optional<double>(rng.uniform(p.R0, p.Rmax)) : std::nullopt;
@@ -29,7 +31,8 @@ static int mode_residual(int cases, int max_nr, int max_nt)
                 const PolarGrid& g = ch.levels[l]->grid();
                 if (flags == 0 || l > 0 || true) emit_level("LV", p, g, p.dirbc);
                 int N = g.numberOfNodes();
-                std::vector<double> x = random_field(rng, N), f = random_field(rng, N);
+                if (xs.size() <= l) { xs.push_back(random_field(rng, N)); fs.push_back(random_field(rng, N)); }
+                const std::vector<double>&x = xs[l], &f = fs[l];
                 Vector<double> xv = from_rowmajor(g, x), fv = from_rowmajor(g, f);
                 for (int threads : {1, 4}) {
                     ResidualGive give(g, ch.levels[l]->levelCache(), *p.geo, *p.coef, p.dirbc, threads);
